@@ -8,6 +8,14 @@ and handed to the real ``dask.tokenize.tokenize``.  Three facets are observed:
    description) must be one token (for every generated v for which deepcopy /
    pickle work); equal dicts / sets / frozensets built in another insertion
    order must get the same token;
+   1b. equal values with a different CONSTRUCTION HISTORY (vf/gen/c12_history.py): nullable Int/UInt/Float/boolean
+   arrays whose missing slots were masked after holding other payloads (setitem NA, the public
+   ``IntegerArray(values, mask)`` constructors, arithmetic, where / mask, take with fill, reindex, concat, conversion,
+   strided slices), Categoricals with the same categories / codes / ordered flag from different code paths, object /
+   str / string arrays whose equal strings are shared or distinct Python objects, DataFrames with equal content in
+   another block layout — bare and inside Series, Index, DataFrame columns, lists, dicts.  The structural oracle decides
+   that the two are equal (values, dtype, index, names); then the tokens must be equal.  Label
+   ``nondeterminism:equal-values:<what differs besides the value>``;
 2. determinism across interpreters for plain data: batches of descriptions are
    tokenized in fresh subprocesses with PYTHONHASHSEED = 0, 1 and a derived
    random seed; tokens must equal the tokens of the shard (hash seed 0);
@@ -50,6 +58,16 @@ False alarms corrected while calibrating (oracle/generator, not dask):
 * Blame descended into set/frozenset elements positionally although the
   iteration orders differ and blamed ``int``/``str``; elements are matched by
   value now.
+* Construction histories that are NOT in the check because "equal" is ambiguous there: ``numpy.ma`` masked arrays
+  (the data under the mask is public through ``.data``, and ``normalize_masked_array`` of dask.array.ma hashes data,
+  mask and fill value on purpose); a MultiIndex with unused level entries vs ``remove_unused_levels()`` (``.levels`` is
+  public); DatetimeIndex with and without ``freq``; Categoricals with an extra unused category (another dtype);
+  ``remove_categories`` on an unordered Categorical sorts the categories (the oracle calls the result different, so
+  does dask); ndarrays in another memory layout keep counting as ``layout_only_pairs`` (no requirement).
+* Facet 1b on the unchanged tree: frames in another block layout and string arrays with a missing element whose equal
+  strings are shared vs distinct objects get different tokens.  Both are the mechanisms already recorded for deepcopy /
+  pickle round trips (block-wise hashing of frames; pickle memo of non-string object arrays) reached by another route:
+  known findings (known_findings.d/C12_b.json), one label each whatever the carrier.
 Genuine defects: 10 mechanisms on the unchanged tree (findings_proposed/C12.md
 sections 1-10; 1-4, 6-9 since repaired in /repo, 5 and 10 known findings) and
 one more on the repaired tree (section 11).  PENDING lists the labels that
@@ -74,6 +92,8 @@ RULE = ("cases = (a) all unordered pairs of a fixed list of atoms (builtin scala
         "field types, grouping, nesting, titles, offsets, units, byte order, object arrays and pandas carriers whose joined strings "
         "coincide, frames with the same blocks under another column assignment, memmaps, large arrays differing in the "
         "middle) and equal values in another insertion order; every value also gets the determinism checks; "
+        "family 'history': one value reached by two construction routes (masked nullable arrays, categoricals, string arrays, "
+        "frame block layouts, in 8 carriers), tokens must agree when the oracle calls the two equal; "
         "non-trivial = pair whose members the oracle calls observably different, or determinism checks on a non-scalar "
         "value; distinct = distinct pair of descriptions")
 ASSUMPTIONS = ["numpy, pandas, copy.deepcopy and pickle are trusted to reproduce the described value",
@@ -87,16 +107,26 @@ FLOORS = {
     # diff_mechanisms 986, value_features 60, hash_probe_values 34
     "quick": {"evaluations": 35000, "distinct_nontrivial": 38000,
               "counters": {"determinism_checks": 200000, "xproc_comparisons": 25000, "xproc_batches": 14,
-                           "pairs_compared": 30000, "equal_pairs_compared": 2000, "tokenize_calls": 300000},
-              "sets": {"diff_mechanisms": 400, "value_features": 25, "hash_probe_values": 10},
+                           "pairs_compared": 30000, "equal_pairs_compared": 1900, "tokenize_calls": 300000,
+                           # history family (seed 0): 4249 equal pairs (masked 1781, cat 922, blocks 884, strings 662),
+                           # 1312 masked pairs whose payload under NA differs
+                           "history_equal_pairs_compared": 1900, "history_equal_pairs:masked": 800,
+                           "history_equal_pairs:cat": 400, "history_equal_pairs:blocks": 400,
+                           "history_equal_pairs:strings": 300,
+                           "history_masked_pairs_with_different_hidden_payload": 600},
+              "sets": {"diff_mechanisms": 400, "value_features": 25, "hash_probe_values": 10, "history_features": 4},
               "max_skipped_fraction": 0.05},
     # measured (seed 0, before the structured-dtype family was added): 818337 cases, 730181 distinct,
     # determinism_checks 6364588, xproc_comparisons 460800 (192 batches), pairs_compared 708041,
     # equal_pairs_compared 64657, tokenize_calls 8668792, diff_mechanisms 985, hash_probe_values 194
     "thorough": {"evaluations": 350000, "distinct_nontrivial": 350000,
                  "counters": {"determinism_checks": 2500000, "xproc_comparisons": 200000, "xproc_batches": 80,
-                              "pairs_compared": 300000, "equal_pairs_compared": 25000, "tokenize_calls": 3500000},
-                 "sets": {"diff_mechanisms": 400, "value_features": 25, "hash_probe_values": 80},
+                              "pairs_compared": 300000, "equal_pairs_compared": 25000, "tokenize_calls": 3500000,
+                              "history_equal_pairs_compared": 25000, "history_equal_pairs:masked": 10500,
+                              "history_equal_pairs:cat": 5300, "history_equal_pairs:blocks": 5300,
+                              "history_equal_pairs:strings": 4000,
+                              "history_masked_pairs_with_different_hidden_payload": 8000},
+                 "sets": {"diff_mechanisms": 400, "value_features": 25, "hash_probe_values": 80, "history_features": 4},
                  "max_skipped_fraction": 0.05},
 }
 EXHAUSTIVE_SPACE = "all unordered pairs of the fixed atom list vf.gen.c12_values.atoms() (collision facet only)"
@@ -121,6 +151,11 @@ PENDING = {
         "known: np.array([b'b', 1], dtype=object) and its pickle round trip get different tokens (pickle memo encodes identity)",
     "nondeterminism:deepcopy:object-array&pickle-bytes-differ":
         "known: an object array holding a non-contiguous ndarray and its deep copy get different tokens",
+    # facet 1b (known_findings.d/C12_b.json): the same two mechanisms reached by construction history
+    "nondeterminism:equal-values:DataFrame&block-structure-differs":
+        "known: equal frames whose columns sit in different internal blocks (dict vs column-by-column / concat / assign) get different tokens",
+    "nondeterminism:equal-values:equal-strings-shared-vs-distinct-objects&has-missing-element":
+        "known: equal object/str/string arrays with a missing element get different tokens when equal strings are shared vs distinct objects",
     # found on the repaired tree (findings_proposed/C12.md section 11): items are sorted by str(key), and the
     # str() of a frozenset key / element depends on its iteration order
     "nondeterminism:equal-values:dict-key-is-unordered-container":
@@ -352,6 +387,27 @@ def _compare_pair(ctx, dv, dw, v, w, tv, tw, expect, fam):
     from vf.gen import c12_values as V
 
     d = V.diff(v, w)
+    if fam == "history":
+        # facet 1b: one value reached by two construction routes; the oracle alone says whether the two are equal
+        from vf.gen import c12_history as H
+
+        what = dv[1]["what"]
+        ctx.op("history:%s:%s" % (what, dv[1].get("carrier")))
+        if d is None:
+            ctx.count("history_equal_pairs_compared")
+            ctx.count("history_equal_pairs:" + what)
+            feat = H.feature(dv, dw, v, w)
+            ctx.distinct("history_features", feat)
+            if feat.endswith("payload-under-NA-differs"):
+                ctx.count("history_masked_pairs_with_different_hidden_payload")
+            ctx.nontrivial = True
+            if tv != tw:
+                ctx.violation("nondeterminism:equal-values:" + feat,
+                              "equal values (%s; routes %s / %s in a %s) got tokens %s and %s"
+                              % (what, dv[1].get("route", dv[1].get("sharing")), dw[1].get("route", dw[1].get("sharing")),
+                                 dv[1].get("carrier"), tv, tw), v=_short(dv), w=_short(dw))
+            return
+        ctx.count("history_pairs_oracle_says_different")     # judged below like any other pair of different values
     if d is None:
         if expect == "same":
             ctx.count("equal_pairs_compared")
